@@ -74,6 +74,7 @@ package c08
 import (
 	"fmt"
 	"reflect"
+	"strings"
 	"testing"
 
 	"git.metabarcoding.org/obitools/obitools4/obitools4/pkg/obialign"
@@ -91,10 +92,10 @@ func TestMain(m *testing.M) {
 	evid.Tests(
 		evid.Spec{Name: "TestReplay", Kind: "plain", QuickShards: 1, ThoroughShards: 1},
 		evid.Spec{Name: "TestExhaustiveTiny", Kind: "plain", QuickShards: 4, ThoroughShards: 16, TimeoutS: 3000},
-		evid.Spec{Name: "TestPropPair", Kind: "rapid", Quick: 16000, Thorough: 640000, QuickShards: 8, ThoroughShards: 16, TimeoutS: 3000},
-		evid.Spec{Name: "TestPropArena", Kind: "rapid", Quick: 4000, Thorough: 160000, QuickShards: 8, ThoroughShards: 16, TimeoutS: 3000},
+		evid.Spec{Name: "TestPropPair", Kind: "rapid", Quick: 40000, Thorough: 640000, QuickShards: 16, ThoroughShards: 16, TimeoutS: 3000},
+		evid.Spec{Name: "TestPropArena", Kind: "rapid", Quick: 8000, Thorough: 160000, QuickShards: 8, ThoroughShards: 16, TimeoutS: 3000},
 	)
-	evid.Note("rule", "pair: two reads (1..300 nt, qualities 0..93) cut by construction from one generated fragment (all 4-mers distinct / free / two-letter / tandem repeat) in a chosen geometry (3' overlap 'left', 5' overlap 'right', either read contained in the other, identical start, identical end, identical reads, overlap 0..3, gap, unrelated), then optionally edited (substitutions, indels, lowered quality) and sprinkled with IUPAC codes; settings fast/exact x relative/absolute x delta 0..10 x gap 0.5..4 x scale 0.5..2 x min-overlap x min-identity x inplace. arena: 2..6 such pairs of alternating sizes through ONE arena and ONE shift map (as an obipairing worker does), every answer compared with the answer of a fresh arena. tiny: every pair over {a,c} up to length 5 (quick) / {a,c,g} up to length 5 (thorough) x 3 modes x 2 quality patterns. Oracles: path validity; score recomputed along the path with the H3 column score and gap penalty under the reported one-side-free scheme (exact integer equality); exact mode score = max(left, right) of an independent full-matrix DP; consensus base per column (higher quality wins, IUPAC code on ties), one quality per column, annotations vs path; join = A + 10 dots + B; error-free reads reassemble the fragment when the DP optimum is unique at the true offset (exact) / the true offset strictly maximises the 4-mer diagonal score (fast). Non-trivial = the returned path has a diagonal run and the reads overlap by >= 4 columns by construction (arena: a pair smaller than its predecessor). Distinct = hash of the whole case.")
+	evid.Note("rule", "pair: two reads (1..300 nt, qualities 0..93) cut by construction from one generated fragment (all 4-mers distinct / free / two-letter / tandem repeat) in a chosen geometry (3' overlap 'left', 5' overlap 'right', either read contained in the other, identical start, identical end, identical reads, overlap 0..3, gap, unrelated), then optionally edited (substitutions, indels, lowered quality) and sprinkled with IUPAC codes; settings fast/exact x relative/absolute x delta 0..10 x gap 0.5..4 x scale 0.5..2 x min-overlap x min-identity x inplace. arena: 2..6 such pairs of alternating sizes through ONE arena and ONE shift map (as an obipairing worker does), every answer compared with the answer of a fresh arena. tiny: every pair over {a,c} up to length 5 (quick) / {a,c,g} up to length 5 (thorough) x 3 modes x 2 quality patterns. Oracles: path validity; score recomputed along the path with the H3 column score and gap penalty under the reported one-side-free scheme (exact integer equality); exact mode score = max(left, right) of an independent full-matrix DP; consensus base per column (higher quality wins, IUPAC code on ties), one quality per column, annotations vs path; join = A + 10 dots + B; error-free reads reassemble the fragment when the DP optimum is unique at the true offset (exact) / the true offset strictly maximises the 4-mer diagonal score (fast). Non-trivial = the returned path has a diagonal run and the reads overlap by >= 4 columns by construction (arena: a pair smaller than its predecessor; tiny: both reads hold a 4-mer). Distinct = hash of the whole case.")
 	evid.Main(m, "C08")
 }
 
@@ -559,15 +560,22 @@ func reassemblyClaimed(c pairCase, colScore func(i, j int) int, gapPen int, fini
 // ------------------------------------------------------------------ the checks
 
 func checkPair(c pairCase) error {
+	_, err := checkPairAnswer(c)
+	return err
+}
+
+// checkPairAnswer is checkPair; it also hands back the answer of the real code
+// (nil when it did not return) so that the property can label the case.
+func checkPairAnswer(c pairCase) (*outcome, error) {
 	if err := c.validate(); err != nil {
-		return err
+		return nil, err
 	}
 	shifts := map[int]int{}
 	o, err := runReal(c, obialign.MakePEAlignArena(len(c.A), len(c.B)), &shifts)
 	if err != nil {
-		return err
+		return nil, err
 	}
-	return judge(c, o)
+	return &o, judge(c, o)
 }
 
 func checkArena(ac arenaCase) error {
@@ -610,8 +618,17 @@ var f10Present = func() bool {
 
 // ------------------------------------------------------------------ classes
 
-func classesOf(c pairCase) (nontrivial bool, cl []string) {
-	cl = append(cl, "kind:"+c.Kind)
+func classesOf(c pairCase) (cl []string) {
+	for i, part := range strings.Split(c.Kind, "/") {
+		switch {
+		case i == 0:
+			cl = append(cl, "kind:"+part)
+		case part == "indels":
+			cl = append(cl, "edited_with_indels")
+		default:
+			cl = append(cl, "fragment:"+part)
+		}
+	}
 	if c.Fast {
 		if c.Rel {
 			cl = append(cl, "mode:fast_relative")
@@ -659,16 +676,17 @@ func classesOf(c pairCase) (nontrivial bool, cl []string) {
 	if max(len(c.A), len(c.B)) > 150 {
 		cl = append(cl, "read_longer_than_150")
 	}
-	return ov >= 4, cl
+	if c.Delta == 0 {
+		cl = append(cl, "delta_0")
+	}
+	return cl
 }
 
-// observe runs the real code once more cheaply? No: classes that depend on the
-// answer are counted from the check itself through this hook.
-func answerClasses(c pairCase) []string {
-	shifts := map[int]int{}
-	o, err := runReal(c, obialign.MakePEAlignArena(len(c.A), len(c.B)), &shifts)
-	if err != nil {
-		return []string{"answer:none"}
+// answerClasses labels a case by what the real code answered; the first result
+// says whether the returned path has a diagonal run.
+func answerClasses(c pairCase, o *outcome) (bool, []string) {
+	if o == nil {
+		return false, []string{"answer:none"}
 	}
 	var cl []string
 	if m, _ := o.Annot["mode"].(string); m != "" {
@@ -676,11 +694,11 @@ func answerClasses(c pairCase) []string {
 	}
 	cl = append(cl, "answer:dir_"+dirName(o.IsLeft))
 	diag, inner := false, false
-	for k := 0; k < len(o.Path); k += 2 {
+	for k := 0; k+1 < len(o.Path); k += 2 {
 		if o.Path[k+1] > 0 {
 			diag = true
 		}
-		if k > 0 && o.Path[k] != 0 && k+2 < len(o.Path) {
+		if k > 0 && o.Path[k] != 0 && o.Path[k+1] > 0 {
 			inner = true
 		}
 	}
@@ -691,7 +709,9 @@ func answerClasses(c pairCase) []string {
 		cl = append(cl, "answer:indel_inside_overlap")
 	}
 	if c.Fast {
-		if o.FastCount+3 < o.Over {
+		if o.FastCount == 0 {
+			cl = append(cl, "answer:fast_no_shared_4mer")
+		} else if o.FastCount+3 < o.Over {
 			cl = append(cl, "answer:fast_then_dp")
 		} else {
 			cl = append(cl, "answer:fast_identical_overlap")
@@ -705,8 +725,11 @@ func answerClasses(c pairCase) []string {
 		if (first < 0 && last < 0) || (first > 0 && last > 0) {
 			cl = append(cl, "answer:containment_path")
 		}
+		if (o.IsLeft && (first > 0 || last < 0)) || (!o.IsLeft && (first < 0 || last > 0)) {
+			cl = append(cl, "answer:end_run_against_direction")
+		}
 	}
-	return cl
+	return diag, cl
 }
 
 // ------------------------------------------------------------------ properties
@@ -714,15 +737,14 @@ func answerClasses(c pairCase) []string {
 func TestPropPair(t *testing.T) {
 	rapid.Check(t, func(rt *rapid.T) {
 		c := genPair(rt, 300)
-		nt, cl := classesOf(c)
-		if rapid.IntRange(0, 7).Draw(rt, "sample_answer_classes") == 0 {
-			cl = append(cl, answerClasses(c)...)
-		}
+		cl := classesOf(c)
 		if claimed := claimProbe(c); claimed != "" {
 			cl = append(cl, claimed)
 		}
-		evid.Eval("pair", evid.Hash(fmt.Sprintf("%+v", c)), nt, c, cl...)
-		if err := checkPair(c); err != nil {
+		o, err := checkPairAnswer(c)
+		diag, acl := answerClasses(c, o)
+		evid.Eval("pair", evid.Hash(fmt.Sprintf("%+v", c)), diag && c.overlap() >= 4, c, append(cl, acl...)...)
+		if err != nil {
 			evid.Fail(rt, "pair", c, err)
 		}
 	})
